@@ -244,10 +244,23 @@ Section CalcTerm.
   Variables (s : aschema) (frs : list rfrag) (o : opts).
 
   (* the body never fails if the recursive call never fails on the sub-selections it is given *)
-  Lemma calc_body_total (rec : ctx -> list rsel -> nat -> string -> string -> option ctx) sels :
+  Lemma calc_fields_total (rec recf : ctx -> list rsel -> nat -> string -> string -> option ctx) sels :
     (forall x sub, In x sels -> ((exists a fd, x = RField a fd sub) \/ (exists on, x = RInline on sub)) ->
-                   forall c sid t p, rec c sub sid t p <> None) ->
-    forall c sid tname prefix, calc_body s frs o rec c sels sid tname prefix <> None.
+                   forall c sid t p, rec c sub sid t p <> None /\ recf c sub sid t p <> None) ->
+    forall c sid tname prefix, calc_fields s frs o rec recf c sels sid tname prefix <> None.
+  Proof.
+    intros Hrec c0 sid tname prefix. unfold calc_fields. apply fold_opt_total. intros b x Hx.
+    destruct x as [a fd sub| |on sub|n]; try discriminate.
+    - destruct (find_kind_sdl s (gname (fd_type fd))) as [[| | | | |]|]; try discriminate;
+        (destruct (push_type _ _) as [c2 nid]; apply (Hrec (RField a fd sub) sub Hx); left; eauto).
+    - destruct (on_object s tname); [|discriminate]. apply (Hrec (RInline on sub) sub Hx). right. eauto.
+    - destruct (String.eqb _ tname || on_object s tname); discriminate.
+  Qed.
+
+  Lemma calc_body_total (rec recf : ctx -> list rsel -> nat -> string -> string -> option ctx) sels :
+    (forall x sub, In x sels -> ((exists a fd, x = RField a fd sub) \/ (exists on, x = RInline on sub)) ->
+                   forall c sid t p, rec c sub sid t p <> None /\ recf c sub sid t p <> None) ->
+    forall c sid tname prefix, calc_body s frs o rec recf c sels sid tname prefix <> None.
   Proof.
     intros Hrec c sid tname prefix.
     assert (Hv : forall c0, calc_variants s frs o rec c0 sels sid tname prefix <> None).
@@ -274,26 +287,29 @@ Section CalcTerm.
         destruct m0 as [a fd sub| |on sub|n]; try (apply Hf; exact Hm).
         destruct mr as [|m1 mr']; [discriminate|apply Hf; exact Hm]. }
       destruct (fold_opt _ vs c0); [discriminate|congruence]. }
-    assert (Hfl : forall c0, calc_fields s frs o rec c0 sels sid tname prefix <> None).
-    { intros c0. unfold calc_fields. apply fold_opt_total. intros b x Hx.
-      destruct x as [a fd sub| |on sub|n]; try discriminate.
-      - destruct (find_kind_sdl s (gname (fd_type fd))) as [[| | | | |]|]; try discriminate;
-          (destruct (push_type _ _) as [c2 nid]; apply (Hrec (RField a fd sub) sub Hx); left; eauto).
-      - destruct (String.eqb _ tname); discriminate. }
+    assert (Hfl : forall c0, calc_fields s frs o rec recf c0 sels sid tname prefix <> None).
+    { intros c0. apply calc_fields_total. exact Hrec. }
     unfold calc_body.
     destruct sels as [|x0 r0]; [|destruct x0; destruct r0]; try discriminate;
       (destruct (calc_variants s frs o rec c _ sid tname prefix) as [c1|] eqn:E; [apply Hfl|exfalso; exact (Hv c E)]).
   Qed.
 
-  Theorem calc_terminates : forall fuel c sels sid tname prefix,
-    sels_depth sels < fuel -> calc s frs o fuel c sels sid tname prefix <> None.
+  Lemma calc_both_terminate : forall fuel c sels sid tname prefix,
+    sels_depth sels < fuel ->
+    calc s frs o fuel c sels sid tname prefix <> None /\ calcf s frs o fuel c sels sid tname prefix <> None.
   Proof.
     induction fuel as [|f IH]; intros c sels sid tname prefix Hd; [lia|].
-    cbn [calc]. apply calc_body_total.
-    intros x sub Hx Hs c0 sid0 t p. apply IH.
-    pose proof (sel_depth_in x sels Hx) as H1.
-    destruct Hs as [[a [fd ->]]|[on ->]]; cbn [sel_depth] in H1; fold (sels_depth sub) in H1; lia.
+    assert (Hsub : forall x sub, In x sels -> ((exists a fd, x = RField a fd sub) \/ (exists on, x = RInline on sub)) ->
+                   forall c0 sid0 t p, calc s frs o f c0 sub sid0 t p <> None /\ calcf s frs o f c0 sub sid0 t p <> None).
+    { intros x sub Hx Hs c0 sid0 t p. apply IH.
+      pose proof (sel_depth_in x sels Hx) as H1.
+      destruct Hs as [[a [fd ->]]|[on ->]]; cbn [sel_depth] in H1; fold (sels_depth sub) in H1; lia. }
+    split; cbn [calc calcf]; [apply calc_body_total|apply calc_fields_total]; exact Hsub.
   Qed.
+
+  Theorem calc_terminates : forall fuel c sels sid tname prefix,
+    sels_depth sels < fuel -> calc s frs o fuel c sels sid tname prefix <> None.
+  Proof. intros fuel c sels sid tname prefix Hd. exact (proj1 (calc_both_terminate fuel c sels sid tname prefix Hd)). Qed.
 
   Corollary calc_never_out_of_fuel c sels sid tname prefix :
     calc s frs o (calc_fuel sels) c sels sid tname prefix <> None.
